@@ -6,6 +6,8 @@
  * file, you can obtain one at https://mozilla.org/MPL/2.0/.
  */
 
+#include <vector>
+
 #include "cdns_decoder.h"
 
 CDNS::CborType CDNS::CdnsDecoder::peek_type()
@@ -187,78 +189,96 @@ void CDNS::CdnsDecoder::read_break()
 
 void CDNS::CdnsDecoder::skip_item()
 {
-    CborType cbor_type;
-    uint8_t item_length;
-    read_cbor_type(cbor_type, item_length);
+    // Containers still being skipped are kept on an explicit stack so that the
+    // nesting depth of the input is not limited by the size of the call stack
+    struct Pending {
+        uint64_t items;
+        bool indef;
+    };
 
-    switch (cbor_type) {
-        case CborType::UNSIGNED:
-        case CborType::NEGATIVE:
-            if (item_length >= 28) {
-                throw CdnsDecoderException(("Unsupported CBOR additional information value: " +
-                                            std::to_string(item_length)).c_str());
-            }
-            read_int(item_length);
-            break;
+    std::vector<Pending> stack;
+    stack.push_back({1, false});
 
-        case CborType::TAG:
-            if (item_length >= 28) {
-                throw CdnsDecoderException(("Unsupported CBOR additional information value: " +
-                                            std::to_string(item_length)).c_str());
+    while (!stack.empty()) {
+        if (stack.back().indef) {
+            if (peek_type() == CborType::BREAK) {
+                m_p++;
+                stack.pop_back();
+                continue;
             }
-            read_int(item_length);
-            // The tagged data item belongs to the tag
-            skip_item();
-            break;
+        }
+        else {
+            if (stack.back().items == 0) {
+                stack.pop_back();
+                continue;
+            }
+            stack.back().items--;
+        }
 
-        case CborType::SIMPLE:
-            if (item_length >= 28 && item_length <= 30) {
-                throw CdnsDecoderException(("Unsupported CBOR additional information value: " +
-                                            std::to_string(item_length)).c_str());
-            }
-            read_int(item_length);
-            break;
+        CborType cbor_type;
+        uint8_t item_length;
+        read_cbor_type(cbor_type, item_length);
 
-        case CborType::BYTE_STRING:
-        case CborType::TEXT_STRING:
-            if (item_length >= 28 && item_length <= 30) {
-                throw CdnsDecoderException(("Unsupported CBOR additional information value: " +
-                                            std::to_string(item_length)).c_str());
-            }
-            read_string(cbor_type, read_int(item_length), item_length == 31 ? true : false);
-            break;
-
-        case CborType::ARRAY:
-        case CborType::MAP:
-            if (item_length >= 28 && item_length <= 30) {
-                throw CdnsDecoderException(("Unsupported CBOR additional information value: " +
-                                            std::to_string(item_length)).c_str());
-            }
-            if (item_length == 31) {
-                while(true) {
-                    if (peek_type() == CborType::BREAK) {
-                        m_p++;
-                        break;
-                    }
-                    skip_item();
-                    if (cbor_type == CborType::MAP)
-                        skip_item();
+        switch (cbor_type) {
+            case CborType::UNSIGNED:
+            case CborType::NEGATIVE:
+                if (item_length >= 28) {
+                    throw CdnsDecoderException(("Unsupported CBOR additional information value: " +
+                                                std::to_string(item_length)).c_str());
                 }
-            }
-            else {
-                uint64_t item_count = read_int(item_length);
-                for (unsigned i = 0; i < item_count; i++) {
-                    skip_item();
-                    if (cbor_type == CborType::MAP)
-                        skip_item();
-                }
-            }
-            break;
+                read_int(item_length);
+                break;
 
-        default:
-            throw CdnsDecoderException(("Unknown CBOR major type " +
-                                        std::to_string(static_cast<uint8_t>(cbor_type) >> 5)).c_str());
-            break;
+            case CborType::TAG:
+                if (item_length >= 28) {
+                    throw CdnsDecoderException(("Unsupported CBOR additional information value: " +
+                                                std::to_string(item_length)).c_str());
+                }
+                read_int(item_length);
+                // The tagged data item belongs to the tag
+                stack.push_back({1, false});
+                break;
+
+            case CborType::SIMPLE:
+                if (item_length >= 28 && item_length <= 30) {
+                    throw CdnsDecoderException(("Unsupported CBOR additional information value: " +
+                                                std::to_string(item_length)).c_str());
+                }
+                read_int(item_length);
+                break;
+
+            case CborType::BYTE_STRING:
+            case CborType::TEXT_STRING:
+                if (item_length >= 28 && item_length <= 30) {
+                    throw CdnsDecoderException(("Unsupported CBOR additional information value: " +
+                                                std::to_string(item_length)).c_str());
+                }
+                read_string(cbor_type, read_int(item_length), item_length == 31 ? true : false);
+                break;
+
+            case CborType::ARRAY:
+            case CborType::MAP:
+                if (item_length >= 28 && item_length <= 30) {
+                    throw CdnsDecoderException(("Unsupported CBOR additional information value: " +
+                                                std::to_string(item_length)).c_str());
+                }
+                if (item_length == 31) {
+                    stack.push_back({0, true});
+                }
+                else {
+                    uint64_t item_count = read_int(item_length);
+                    stack.push_back({item_count, false});
+                    // A map holds a key and a value per entry
+                    if (cbor_type == CborType::MAP)
+                        stack.push_back({item_count, false});
+                }
+                break;
+
+            default:
+                throw CdnsDecoderException(("Unknown CBOR major type " +
+                                            std::to_string(static_cast<uint8_t>(cbor_type) >> 5)).c_str());
+                break;
+        }
     }
 }
 
